@@ -11,7 +11,8 @@ THEOREMS = ["C09_empty_expected", "C09_complete_iff", "C09_complete_ordered", "C
             "C09_dropped_iff_surplus", "C09_reducer_fresh_add", "C09_reducer_stale_rerun", "C09_reducer_stale_rerun_all_buffers", "C09_stale_rerun_tick", "C09_reducer_rerun_skips", "C09_reducer_delete",
             "C09_drain_keeps_buffers", "C09_single_flight_partition", "C09_single_flight_once", "C09_refuted_double_count",
             "C09_complete_only_received", "C09_conc_single_flight_refines", "C09_conc_lists_ordered_received", "C09_conc_trigger_in_one_list",
-            "C09_conc_no_double_buffering", "C09_refuted_conc_buffer_invariant", "C09_refuted_conc_none_lost"]
+            "C09_conc_no_double_buffering", "C09_refuted_conc_buffer_invariant", "C09_refuted_conc_none_lost",
+            "C09_conc_finish_refines_reducer", "C09_conc_start_refines_admission", "C09_collect_source_shape"]
 EXPLANATION = (
     "Lean: collectEvents (model of InternalContext.collect_events) returns a list iff buffer+event has exactly the expected "
     "multiset of types (under the buffer invariant, which pending adds preserve), ordered as `expected`, a permutation of "
